@@ -4,6 +4,7 @@ package main
 
 import (
 	"bufio"
+	"os"
 	"fmt"
 	"io"
 	"os/exec"
@@ -35,6 +36,8 @@ type Solver struct {
 	timeout int // ms
 	log     io.Writer
 	nq      int // queries since (re)start
+	oneShot bool
+	stack   []*Term // path-condition conjuncts currently asserted, one push level each
 }
 
 func solverArgs(kind string, timeoutMs int) (string, []string) {
@@ -53,6 +56,16 @@ func solverArgs(kind string, timeoutMs int) (string, []string) {
 
 func NewSolver(kind string, timeoutMs int) (*Solver, error) {
 	s := &Solver{kind: kind, timeout: timeoutMs}
+	if kind == "cvc5-int" {
+		// cvc5's integer encoding degrades badly with accumulated incremental state:
+		// every query goes to a fresh process with only the definitions it needs
+		s.oneShot = true
+		return s, nil
+	}
+	if d := os.Getenv("GOSYM_SMTLOG"); d != "" {
+		f, _ := os.CreateTemp(d, "smt-"+kind+"-*.smt2")
+		s.log = f
+	}
 	if err := s.start(); err != nil {
 		return nil, err
 	}
@@ -79,6 +92,8 @@ func (s *Solver) start() error {
 	s.out = bufio.NewReaderSize(r, 1<<16)
 	s.defined = map[int]bool{}
 	s.nq = 0
+	s.stack = nil
+	s.send("(set-option :global-declarations true)\n")
 	if strings.HasPrefix(s.kind, "cvc5") {
 		s.send("(set-logic ALL)\n")
 	}
@@ -240,9 +255,12 @@ func (s *Solver) readSexp() (string, error) {
 // Check decides satisfiability of the conjunction of asserts.  When sat and
 // wantModel, the model of every variable occurring in asserts (plus extra) is returned.
 func (s *Solver) Check(asserts []*Term, wantModel bool, extra []*Term) (SatResult, map[string]uint64) {
+	if s.oneShot {
+		return s.checkOneShot(asserts, wantModel)
+	}
 	t0 := time.Now()
 	defer func() { s.Secs += time.Since(t0).Seconds(); s.Queries++ }()
-	if s.nq > 4000 {
+	if s.nq > 20000 {
 		s.restart()
 	}
 	s.nq++
@@ -251,18 +269,33 @@ func (s *Solver) Check(asserts []*Term, wantModel bool, extra []*Term) (SatResul
 			return Unsat, nil
 		}
 	}
-	for _, a := range asserts {
-		s.define(a)
+	// the last assertion is the query; the others are the path condition, kept on the
+	// solver's assertion stack across queries (one push level per conjunct)
+	pc := asserts[:len(asserts)-1]
+	q := asserts[len(asserts)-1]
+	common := 0
+	for common < len(s.stack) && common < len(pc) && s.stack[common] == pc[common] {
+		common++
 	}
+	if n := len(s.stack) - common; n > 0 {
+		s.send("(pop " + strconv.Itoa(n) + ")\n")
+		s.stack = s.stack[:common]
+	}
+	for _, a := range pc[common:] {
+		s.define(a)
+		s.send("(push 1)\n")
+		if !a.IsTrue() {
+			s.send("(assert " + s.ref(a) + ")\n")
+		}
+		s.stack = append(s.stack, a)
+	}
+	s.define(q)
 	for _, a := range extra {
 		s.define(a)
 	}
 	s.send("(push 1)\n")
-	for _, a := range asserts {
-		if a.IsTrue() {
-			continue
-		}
-		s.send("(assert " + s.ref(a) + ")\n")
+	if !q.IsTrue() {
+		s.send("(assert " + s.ref(q) + ")\n")
 	}
 	s.send("(check-sat)\n")
 	s.in.Flush()
@@ -365,4 +398,80 @@ func parseModel(txt string, m map[string]uint64) {
 			// consumed only up to first ')', fine
 		}
 	}
+}
+
+// checkOneShot runs a fresh solver process on a self-contained script.
+func (s *Solver) checkOneShot(asserts []*Term, wantModel bool) (SatResult, map[string]uint64) {
+	t0 := time.Now()
+	defer func() { s.Secs += time.Since(t0).Seconds(); s.Queries++ }()
+	for _, a := range asserts {
+		if a.IsFalse() {
+			return Unsat, nil
+		}
+	}
+	var script strings.Builder
+	saveIn, saveDef, saveLog := s.in, s.defined, s.log
+	s.in = bufio.NewWriter(&script)
+	s.defined = map[int]bool{}
+	s.log = nil
+	s.send("(set-logic ALL)\n")
+	for _, a := range asserts {
+		s.define(a)
+	}
+	for _, a := range asserts {
+		if !a.IsTrue() {
+			s.send("(assert " + s.ref(a) + ")\n")
+		}
+	}
+	s.send("(check-sat)\n")
+	var vars []*Term
+	if wantModel {
+		seen := map[*Term]bool{}
+		for _, a := range asserts {
+			Vars(a, seen, &vars)
+		}
+		if len(vars) > 0 {
+			s.send("(get-value (")
+			for _, v := range vars {
+				s.send(quoteName(v.Name) + " ")
+			}
+			s.send("))\n")
+		}
+	}
+	s.in.Flush()
+	s.in, s.defined, s.log = saveIn, saveDef, saveLog
+	if saveLog != nil {
+		io.WriteString(saveLog, "; ---- one-shot ----\n"+script.String())
+	}
+	bin, args := solverArgs(s.kind, s.timeout)
+	var a2 []string
+	for _, a := range args {
+		if a != "--incremental" {
+			a2 = append(a2, a)
+		}
+	}
+	cmd := exec.Command(bin, a2...)
+	cmd.Stdin = strings.NewReader(script.String())
+	out, _ := cmd.Output()
+	txt := string(out)
+	first := strings.TrimSpace(txt)
+	if i := strings.IndexByte(first, '\n'); i >= 0 {
+		first = strings.TrimSpace(first[:i])
+	}
+	switch first {
+	case "unsat":
+		return Unsat, nil
+	case "sat":
+		m := map[string]uint64{}
+		if wantModel && len(vars) > 0 {
+			if strings.Contains(txt, "(error") {
+				s.Unknown++
+				return Unknown, nil
+			}
+			parseModel(txt, m)
+		}
+		return Sat, m
+	}
+	s.Unknown++
+	return Unknown, nil
 }
